@@ -124,12 +124,20 @@ def kind_c(report, tier, seed):
         a = sugar.Assignment(target, t)
         # (1) print / parse round trip of the real deparse
         text = a.deparse()
-        r = parse_assignment(text)
+        try:
+            r = parse_assignment(text)
+        except Exception as e:  # "parsing never raises"
+            fail("total:" + repr(text), dict(what=f"parse_assignment raised {type(e).__name__}: {e}", text=text))
+            continue
         if not (isinstance(r, Success) and r.unwrap() == a):
             fail("roundtrip:" + text, dict(what=f"parse(deparse(t)) != t", text=text, tree=repr(a), parsed=repr(r)))
         # (2) conventional meaning: text rendered by the independent renderer must parse to the tree
         conv = "a(i) = " + render(t, rng, extra_parens=0.15, spaces=0.3)
-        r2 = parse_assignment(conv)
+        try:
+            r2 = parse_assignment(conv)
+        except Exception as e:
+            fail("total:" + repr(conv), dict(what=f"parse_assignment raised {type(e).__name__}: {e}", text=conv))
+            continue
         if not (isinstance(r2, Success) and r2.unwrap() == a):
             fail("meaning:" + conv, dict(what="the parser gives the text a tree other than its conventional reading", text=conv, expected=repr(a), parsed=repr(r2)))
         if not isinstance(t, (sugar.Tensor, sugar.Integer, sugar.Float)):
@@ -170,7 +178,8 @@ def kind_c(report, tier, seed):
         try:
             r = parse_assignment(text)
             if not (isinstance(r, Failure) and isinstance(r.failure(), exc)):
-                fail("reject:" + text, dict(what=f"expected Failure({exc.__name__}), got {r!r}", text=text))
+                names = exc.__name__ if isinstance(exc, type) else "|".join(x.__name__ for x in exc)
+                fail("reject:" + text, dict(what=f"expected Failure({names}), got {r!r}"[:300], text=text))
         except Exception as e:
             fail("reject:" + text, dict(what=f"parse_assignment raised {type(e).__name__}: {e}", text=text))
     # (4) parsing never raises: random strings, mutated sentences, extreme literals
